@@ -59,12 +59,12 @@ package cmdrunner
 
 //@ func (*cmdrunner.CmdAttachedRunner).Wait
 //@   nopanic [C15.watch]
-//@   bounded peer-dead [C03.c]
+//@   bounded peer-dead [C03.c] [C18.gor]
 //@   at call cmdrunner.pidWait#1 assert arg0 == c.pid   [C15.watch] [C04.end]
 
 //@ func (*cmdrunner.CmdRunner).Wait
 //@   nopanic [C04.end]
-//@   bounded peer-dead [C03.c]
+//@   bounded peer-dead [C03.c] [C18.gor]
 //@   requires c.cmd != nil
 //@   at call (*exec.Cmd).Wait#1 assert recv == c.cmd   [C04.end]
 
@@ -76,7 +76,7 @@ package cmdrunner
 
 //@ func cmdrunner.pidWait
 //@   nopanic [C15.watch]
-//@   bounded peer-dead [C03.c]
+//@   bounded peer-dead [C03.c] [C18.gor]
 //@   modifies heap_fresh
 //@   loop#1 frame fresh_only
 //@   at call cmdrunner.pidAlive#1 assert arg0 == pid   [C15.watch]
